@@ -1,5 +1,7 @@
 import Tmv.Lemmas.PubSub
 import Tmv.Lemmas.Index
+import Tmv.Lemmas.IndexExact
+import Tmv.Lemmas.BlockIndex
 import Tmv.Model.BlockIndex
 /-! # C19 — Subscribers get exactly their matching events; searches return exact matches
 Property theorems only (pub/sub part).  The model is `Tmv.PubSub` (libs/pubsub as repaired by the
@@ -217,233 +219,141 @@ theorem indexed_once_fails_on_duplicate :
     Index.get (addBatch (fun x => x) [] [r1, r2]) [1] = .found r2 ∧ r1 ≠ r2 := by
   decide
 
-/-- the query class of `search_exact_partial`: a non-empty conjunction of `k = 's'`, `k = n`
-(`k` other than `tx.height`), `k EXISTS` (dotted key) and `k CONTAINS 's'` conditions
-(`Index.StrCond`: no separator in keys / equality operands, key other than `tx.hash`) -/
-def StrQuery (q : Query) : Prop := q ≠ [] ∧ ∀ c ∈ q, StrCond c
-
-/-- values compared numerically by the query are canonical decimals within int64 in every indexed
-result (violated by the known finding `txindex.Search.noncanonical-number-value`) -/
-def NumClean (hist : List TxResult) (q : Query) : Prop :=
-  ∀ c ∈ q, ∀ n, c.operand = .int n → ∀ r ∈ hist, ∀ kv ∈ attrsAll r, kv.1 = c.key →
-    ∃ m, m ≤ maxInt64 ∧ kv.2 = dec m
-
-/-- **Search exactness** (partial).  For every clean history (`CleanHist`) and every query of the
-class `StrQuery` whose numerically compared values are canonical (`NumClean`), `Search` succeeds
-and returns exactly the hashes of the indexed txs whose event map (indexed attributes plus
-`tx.height`) satisfies the query in the sense of `Query.Matches` — no indexed tx that satisfies it
-is missing, nothing else is returned.
-Missing for the full statement: range conditions and the `tx.height = n` narrowing (tied to the
-code by the correspondence stream only), and the inputs on which the code is NOT exact (listed as
-known findings with their own witnesses below). -/
-theorem search_exact_partial (hist : List TxResult) (hc : CleanHist H hist) (q : Query)
-    (hq : StrQuery q) (hnum : NumClean hist q) :
+/-- **Search exactness on clean input** — the general theorem of the tx index.
+For EVERY history satisfying `CleanHist` (distinct tx hashes and positions; no '/' in indexed
+keys/values nor in hash bytes) and `NoReserved` (the application does not emit `tx.height`), and
+EVERY query of the language satisfying `CleanQuery` — any non-empty conjunction, in any order, of
+`k = 's'`, `k = n`, `k EXISTS`, `k CONTAINS 's'`, `k < n`, `k <= n`, `k > n`, `k >= n`, including
+`tx.height = n` (with the narrowing of the other equality scans it triggers), several range keys,
+one- and two-sided ranges, ranges mixed with the other conditions — `Search` succeeds and returns
+exactly the hashes of the indexed txs whose event map satisfies `Query.Matches`.
+What `CleanQuery` excludes, each with its witness theorem / known finding: the key `tx.hash`
+(`search_hash_shortcut_fails`), '/' in a key or equality operand (`search_exact_fails_on_separator`),
+`EXISTS` on a key without '.' (`search_exists_undotted_fails`), two bounds of the same side on one
+key, or both bounds on a key that has several values in one tx (`search_range_merge_fails`),
+non-canonical decimal values under a numerically compared key, numbers beyond int64 and
+`k > MaxInt64`; and by the stated exclusions of the model: float, TIME and DATE operands. -/
+theorem search_exact_clean (hist : List TxResult) (hc : CleanHist H hist) (hres : NoReserved hist)
+    (q : Query) (hq : CleanQuery hist q) :
     ∃ hs, search (addBatch H [] hist) q = .hashes hs ∧
       ∀ x, x ∈ hs ↔ ∃ r ∈ hist, H r.tx = x ∧ «matches» q (eventsOf r) = .ok true := by
-  obtain ⟨hne, hcs⟩ := hq
-  -- the shape of a condition of the class
-  have shape : ∀ c ∈ q, isRangeOp c.op = false ∧
-      (operandNat c.operand = none ∨ ((∃ n, c.operand = .int n ∧ n ≤ maxInt64) ∧ c.key ≠ txHeightKey)) ∧
-      c.key ≠ txHashKey := by
-    intro c hcq
-    obtain ⟨_, hk, h⟩ := hcs c hcq
-    rcases h with ⟨hop, s, hs, _⟩ | ⟨hop, hn, _⟩ | ⟨hop, s, hs⟩ | ⟨hop, n, hn, hle, hkh⟩
-    · exact ⟨by rw [hop]; rfl, Or.inl (by rw [hs]; rfl), hk⟩
-    · exact ⟨by rw [hop]; rfl, Or.inl (by rw [hn]; rfl), hk⟩
-    · exact ⟨by rw [hop]; rfl, Or.inl (by rw [hs]; rfl), hk⟩
-    · exact ⟨by rw [hop]; rfl, Or.inr ⟨⟨n, hn, hle⟩, hkh⟩, hk⟩
-  have h1 : conditionsOK q = true := by
-    simp only [conditionsOK, List.all_eq_true]
-    intro c hcq
-    rcases (shape c hcq).2.1 with h | ⟨⟨n, hn, hle⟩, _⟩
-    · cases ho : c.operand <;> simp_all [operandNat]
-    · simp [hn, hle]
-  have h2 : lookForHash q = none := by
-    simp only [lookForHash, List.findSome?_eq_none_iff]
-    intro c hcq
-    have := (shape c hcq).2.2
-    simp [this]
-  have h3 : q.filter (fun c => isRangeOp c.op) = [] := by
-    apply List.filter_eq_nil_iff.mpr
-    intro c hcq; simp [(shape c hcq).1]
-  have h4 : lookForHeight q = none := by
-    simp only [lookForHeight, List.findSome?_eq_none_iff]
-    intro c hcq
-    rcases (shape c hcq).2.1 with h | ⟨_, hkh⟩
-    · simp [h]
-    · simp [hkh]
-  have h5 : q.filter (fun c => !isRangeOp c.op) = q := by
-    apply List.filter_eq_self.mpr
-    intro c hcq; simp [(shape c hcq).1]
-  -- per-condition exactness
-  let S : Cond → List Bytes := fun c => (hist.filter (condHolds c)).map (fun r => H r.tx)
-  have hS : ∀ c ∈ q, ∃ rows, condRows (addBatch H [] hist) c 0 = some rows ∧
-      ∃ hs, valHashes rows = some hs ∧ ∀ x, x ∈ hs ↔ x ∈ S c := by
-    intro c hcq
-    obtain ⟨rows, e, hm⟩ := condRows_strCond H hc c (hcs c hcq)
-    refine ⟨rows, e, ?_⟩
-    obtain ⟨hs, ev, hmem⟩ := valHashes_all_hash rows (by
-      intro row hrow
-      obtain ⟨r, _, kv, _, _, _, rfl⟩ := (hm row).mp hrow
-      exact ⟨_, rfl⟩)
-    refine ⟨hs, ev, ?_⟩
-    intro x
-    rw [hmem]
-    simp only [S, List.mem_map, List.mem_filter]
-    constructor
-    · rintro ⟨row, hrow, hx⟩
-      obtain ⟨r, hr, kv, hkv, hk, ht, rfl⟩ := (hm row).mp hrow
-      simp only [secRow, Val.hash.injEq] at hx
-      exact ⟨r, ⟨hr, (condHolds_iff c r).mpr ⟨kv, hkv, hk, ht⟩⟩, hx⟩
-    · rintro ⟨r, ⟨hr, hh⟩, hx⟩
-      obtain ⟨kv, hkv, hk, ht⟩ := (condHolds_iff c r).mp hh
-      exact ⟨secRow H r kv, (hm _).mpr ⟨r, hr, kv, hkv, hk, ht, rfl⟩, by simp [secRow, hx]⟩
-  obtain ⟨L, eL, mL⟩ := fold_scan_first (addBatch H [] hist) q hne S hS
-  refine ⟨L, ?_, ?_⟩
-  · simp only [search, h1, h2, h4, h5, lookForRanges, h3, List.foldl_nil, Bool.not_true,
-      Bool.false_eq_true, if_false, Option.getD_none, eL]
-  · intro x
-    rw [mL]
-    have hmatch : ∀ r ∈ hist, («matches» q (eventsOf r) = .ok true ↔ ∀ c ∈ q, condHolds c r = true) := by
-      intro r hr
-      have hcan : ∀ c ∈ q, ∀ n, c.operand = .int n →
-          ∀ v ∈ valuesOf (attrsAll r) c.key, ∃ m, m ≤ maxInt64 ∧ v = dec m := by
-        intro c hcq n hn v hv
-        exact hnum c hcq n hn r hr (c.key, v) ((mem_valuesOf _ _ _).mp hv) rfl
-      simp only [«matches», eventsOf_nonempty, Bool.false_eq_true, if_false,
-        matchConds_all q r hcs hcan]
-      constructor
-      · intro h; injection h with h; exact List.all_eq_true.mp h
-      · intro h; rw [List.all_eq_true.mpr h]
-    constructor
-    · intro hall
-      obtain ⟨c0, hc0⟩ := List.exists_mem_of_ne_nil q hne
-      have := hall c0 hc0
-      simp only [S, List.mem_map, List.mem_filter] at this
-      obtain ⟨r, ⟨hr, _⟩, hx⟩ := this
-      refine ⟨r, hr, hx, (hmatch r hr).mpr ?_⟩
-      intro c hcq
-      have := hall c hcq
-      simp only [S, List.mem_map, List.mem_filter] at this
-      obtain ⟨r', ⟨hr', hh'⟩, hx'⟩ := this
-      have : r' = r := hc.hashInj r' hr' r hr (hx'.trans hx.symm)
-      rw [← this]; exact hh'
-    · rintro ⟨r, hr, hx, hm⟩ c hcq
-      simp only [S, List.mem_map, List.mem_filter]
-      exact ⟨r, ⟨hr, (hmatch r hr).mp hm c hcq⟩, hx⟩
-
-/-- **Range exactness** (partial).  For every clean history, every key `k` whose indexed values
-are canonical decimals within int64 (`CanonKey`) with at most one value per tx, and every
-two-sided window `k >(=) a AND k <(=) b` (either order of the two conditions, inclusive or
-exclusive bounds): `Search` returns exactly the hashes of the indexed txs whose events satisfy the
-query — whatever the numbers of digits of the values, i.e. although the scan walks the keys in
-lexicographic order of their decimal text (this is what a "stop at the first value above the upper
-bound" scan gets wrong).  `k` may be `tx.height`: height windows are covered.
-Missing for the full statement: several range keys in one query, ranges combined with other
-conditions, one-sided ranges (stream only); multi-valued attributes and two bounds of the same
-side are known findings (`range-conditions-merged-per-key`, witness `search_range_merge_fails`). -/
-theorem search_range_exact_partial (hist : List TxResult) (hc : CleanHist H hist)
-    (k : Str) (hk : sep ∉ k) (hkh : k ≠ txHashKey)
-    (a b : Nat) (incA incB : Bool) (ha : a ≤ maxInt64) (hb : b ≤ maxInt64)
-    (hax : incA = false → a < maxInt64)
-    (hcan : CanonKey hist k)
-    (hsingle : ∀ r ∈ hist, (valuesOf (attrsAll r) k).length ≤ 1)
-    (q : Query)
-    (hq : q = [loCond k a incA, hiCond k b incB] ∨ q = [hiCond k b incB, loCond k a incA]) :
-    ∃ hs, search (addBatch H [] hist) q = .hashes hs ∧
-      ∀ x, x ∈ hs ↔ ∃ r ∈ hist, H r.tx = x ∧ «matches» q (eventsOf r) = .ok true := by
-  let W := window k a incA b incB
-  have hrows := mem_rangeRows H hc W hk hcan
-  obtain ⟨hs0, ev, hmem⟩ := valHashes_all_hash (rangeRows (addBatch H [] hist) W) (by
-    intro row hrow
-    obtain ⟨rr, _, kv, _, _, _, rfl⟩ := (hrows row).mp hrow
-    exact ⟨_, rfl⟩)
-  have shape : conditionsOK q = true ∧ lookForHash q = none ∧ lookForRanges q = [W] ∧
-      lookForHeight q = none ∧ q.filter (fun c => !isRangeOp c.op) = [] := by
-    rcases hq with rfl | rfl
-    · refine ⟨?_, ?_, (lookForRanges_lo_hi k a incA b incB).1, ?_, ?_⟩ <;>
-        cases incA <;> cases incB <;>
-        simp [conditionsOK, lookForHash, lookForHeight, loCond, hiCond, isRangeOp, ha, hb, hkh]
-    · refine ⟨?_, ?_, (lookForRanges_lo_hi k a incA b incB).2, ?_, ?_⟩ <;>
-        cases incA <;> cases incB <;>
-        simp [conditionsOK, lookForHash, lookForHeight, loCond, hiCond, isRangeOp, ha, hb, hkh]
-  obtain ⟨h1, h2, h3, h4, h5⟩ := shape
-  obtain ⟨L, eL, mL⟩ := search_single_range (addBatch H [] hist) q W hs0 h1 h2 h3 h4 h5 ev
+  obtain ⟨L, eL, mL⟩ := search_clean_compute H hc hq
   refine ⟨L, eL, ?_⟩
   intro x
-  rw [mL, hmem]
-  have hmatch : ∀ r ∈ hist, («matches» q (eventsOf r) = .ok true ↔
-      ∃ m, (k, dec m) ∈ attrsAll r ∧ inR W m = true) := by
+  rw [mL]
+  have hpart : ∀ (P : Cond → Prop), (∀ c ∈ q, P c) ↔ (∀ c ∈ rangeConds q, P c) ∧ (∀ c ∈ otherConds q, P c) := by
+    intro P
+    constructor
+    · intro h
+      exact ⟨fun c hc' => h c (List.mem_filter.mp hc').1, fun c hc' => h c (List.mem_filter.mp hc').1⟩
+    · rintro ⟨h1, h2⟩ c hcq
+      by_cases hr : isRangeOp c.op = true
+      · exact h1 c (List.mem_filter.mpr ⟨hcq, hr⟩)
+      · exact h2 c (List.mem_filter.mpr ⟨hcq, by simpa using hr⟩)
+  -- per tx: all scans accept it iff all conditions hold of it
+  have hper : ∀ r ∈ hist,
+      ((∀ W ∈ lookForRanges q, ∃ m, (W.key, dec m) ∈ attrsAll r ∧ inR W m = true) ∧
+       (∀ c ∈ otherConds q, condHoldsG c r = true ∧
+          (c.op = .eq → (lookForHeight q).getD 0 > 0 → r.height = (lookForHeight q).getD 0))) ↔
+      «matches» q (eventsOf r) = .ok true := by
     intro r hr
-    have hcanr : ∀ v ∈ valuesOf (attrsAll r) k, ∃ m, m ≤ maxInt64 ∧ v = dec m := by
-      intro v hv
-      exact hcan r hr (k, v) ((mem_valuesOf _ _ _).mp hv) rfl
-    have := matches_window k a incA b incB ha hb hax r hcanr (hsingle r hr)
-    rcases hq with rfl | rfl
-    · exact this.1
-    · exact this.2
+    rw [matches_clean q r hq.conds (fun c hcq => hq.canon c hcq r hr), hpart]
+    have spec := lookForRanges_spec q
+    constructor
+    · rintro ⟨hR, hC⟩
+      refine ⟨?_, fun c hcq => (hC c hcq).1⟩
+      intro c hcr
+      obtain ⟨W, hW, hk⟩ := spec.covers c hcr
+      exact (range_tx hq W hW r hr).mp (hR W hW) c hcr hk.symm
+    · rintro ⟨hR, hC⟩
+      refine ⟨?_, ?_⟩
+      · intro W hW
+        exact (range_tx hq W hW r hr).mpr (fun c hcr _ => hR c hcr)
+      · intro c hcq
+        refine ⟨hC c hcq, ?_⟩
+        intro _ hpos
+        cases hh : lookForHeight q with
+        | none => rw [hh] at hpos; simp at hpos
+        | some n => simpa using height_pinned hres q n hh r hr hC
+  -- some scan exists, so the hash determines the tx
   constructor
-  · rintro ⟨row, hrow, hx⟩
-    obtain ⟨rr, hrr, kv, hkv, hk1, ⟨m, hv, hin⟩, rfl⟩ := (hrows row).mp hrow
-    simp only [secRow, Val.hash.injEq] at hx
-    refine ⟨rr, hrr, hx, (hmatch rr hrr).mpr ⟨m, ?_, hin⟩⟩
-    have : kv = (k, dec m) := Prod.ext hk1 hv
-    rw [← this]; exact hkv
+  · rintro ⟨hR, hC⟩
+    have hex : ∃ r ∈ hist, H r.tx = x := by
+      obtain ⟨c0, hc0⟩ := List.exists_mem_of_ne_nil q hq.nonempty
+      by_cases hr0 : isRangeOp c0.op = true
+      · obtain ⟨W, hW, _⟩ := (lookForRanges_spec q).covers c0 (List.mem_filter.mpr ⟨hc0, hr0⟩)
+        obtain ⟨r, hr, hx, _⟩ := hR W hW
+        exact ⟨r, hr, hx⟩
+      · obtain ⟨r, hr, hx, _⟩ := hC c0 (List.mem_filter.mpr ⟨hc0, by simpa using hr0⟩)
+        exact ⟨r, hr, hx⟩
+    obtain ⟨r, hr, hx⟩ := hex
+    refine ⟨r, hr, hx, (hper r hr).mp ⟨?_, ?_⟩⟩
+    · intro W hW
+      obtain ⟨r', hr', hx', h⟩ := hR W hW
+      have : r' = r := hc.hashInj r' hr' r hr (hx'.trans hx.symm)
+      rw [← this]; exact h
+    · intro c hcq
+      obtain ⟨r', hr', hx', h⟩ := hC c hcq
+      have : r' = r := hc.hashInj r' hr' r hr (hx'.trans hx.symm)
+      rw [← this]; exact h
   · rintro ⟨r, hr, hx, hm⟩
-    obtain ⟨m, hkv, hin⟩ := (hmatch r hr).mp hm
-    exact ⟨secRow H r (k, dec m), (hrows _).mpr ⟨r, hr, (k, dec m), hkv, rfl, ⟨m, rfl, hin⟩, rfl⟩,
-      by simp [secRow, hx]⟩
+    obtain ⟨hR, hC⟩ := (hper r hr).mpr hm
+    exact ⟨fun W hW => ⟨r, hr, hx, hR W hW⟩, fun c hcq => ⟨r, hr, hx, hC c hcq⟩⟩
 
-/-- the hypotheses of `search_range_exact_partial` are satisfiable, with values of 1, 2 and 3
-digits under the key: the window `5 <= a.n < 100` returns the txs carrying 5 and 25, not 105 —
-although `a.n/105/…` sorts before `a.n/25/…` and `a.n/5/…` in the index -/
+/-- the hypotheses of `search_exact_clean` are satisfiable by a query that uses the height
+narrowing, a range, a CONTAINS and an EXISTS at once:
+`tx.height = 10 AND a.n >= 5 AND a.b CONTAINS 'x' AND a.n EXISTS` over a three-tx history; the
+search returns the one tx at height 10 that satisfies it -/
 example :
-    let an : Str := [97, 46, 110]
-    let mk : Nat → Nat → Bytes → Str → TxResult := fun h i tx v =>
-      { height := h, index := i, tx := tx, events := [{ type := [97], attrs := [{ key := [110], value := v, index := true }] }] }
-    let hist : List TxResult := [mk 9 0 [1] [53], mk 10 0 [2] [49, 48, 53], mk 11 0 [3] [50, 53]]
-    CleanHist (fun x => x) hist ∧ (∀ r ∈ hist, (valuesOf (attrsAll r) an).length ≤ 1) ∧
-    search (addBatch (fun x => x) [] hist) [loCond an 5 true, hiCond an 100 false] = .hashes [[1], [3]] := by
-  refine ⟨by constructor <;> decide, by decide, by decide⟩
-
-/-- the hypotheses of `search_exact_partial` are satisfiable: a clean two-tx history and a
-four-condition query of the class (with a numeric equality on canonical values); the search
-really returns a hit -/
-example :
-    let ab : Str := [97, 46, 98]; let an : Str := [97, 46, 110]
-    let hist : List TxResult :=
-      [{ height := 1, index := 0, tx := [1], events := [{ type := [97], attrs := [{ key := [98], value := [120, 121], index := true }, { key := [110], value := [52, 50], index := true }] }] },
-       { height := 1, index := 1, tx := [2], events := [] }]
-    let q : Query := [{ key := ab, op := .eq, operand := .str [120, 121] }, { key := ab, op := .exists, operand := .none },
-                      { key := ab, op := .contains, operand := .str [121] }, { key := an, op := .eq, operand := .int 42 }]
-    CleanHist (fun x => x) hist ∧ StrQuery q ∧ NumClean hist q ∧
-      search (addBatch (fun x => x) [] hist) q = .hashes [[1]] := by
-  refine ⟨by constructor <;> decide, ⟨by decide, ?_⟩, ?_, by decide⟩
+    let an : Str := [97, 46, 110]; let ab : Str := [97, 46, 98]
+    let mk : Nat → Nat → Bytes → Str → Str → TxResult := fun h i tx n b =>
+      { height := h, index := i, tx := tx, events := [{ type := [97], attrs :=
+          [{ key := [110], value := n, index := true }, { key := [98], value := b, index := true }] }] }
+    let hist : List TxResult := [mk 9 0 [1] [53] [120], mk 10 0 [2] [49, 48, 53] [120, 121], mk 10 1 [3] [50] [120]]
+    let q : Query := [{ key := txHeightKey, op := .eq, operand := .int 10 }, { key := an, op := .ge, operand := .int 5 },
+                      { key := ab, op := .contains, operand := .str [120] }, { key := an, op := .exists, operand := .none }]
+    CleanHist (fun x => x) hist ∧ NoReserved hist ∧ CleanQuery hist q ∧
+      search (addBatch (fun x => x) [] hist) q = .hashes [[2]] := by
+  intro an ab mk hist q
+  refine ⟨by constructor <;> decide, by unfold NoReserved; decide, ?_, by decide⟩
+  have hcanon : ∀ r ∈ hist, ∀ k, k = txHeightKey ∨ k = an →
+      ∀ v ∈ valuesOf (attrsAll r) k, ∃ m, m ≤ maxInt64 ∧ v = dec m := by
+    intro r hr k hk v hv
+    simp only [hist, List.mem_cons, List.not_mem_nil, or_false] at hr
+    rcases hr with rfl | rfl | rfl <;> rcases hk with rfl | rfl
+    · have : valuesOf (attrsAll (mk 9 0 [1] [53] [120])) txHeightKey = [dec 9] := by decide
+      rw [this] at hv; simp at hv; exact ⟨9, by decide, hv⟩
+    · have : valuesOf (attrsAll (mk 9 0 [1] [53] [120])) an = [dec 5] := by decide
+      rw [this] at hv; simp at hv; exact ⟨5, by decide, hv⟩
+    · have : valuesOf (attrsAll (mk 10 0 [2] [49, 48, 53] [120, 121])) txHeightKey = [dec 10] := by decide
+      rw [this] at hv; simp at hv; exact ⟨10, by decide, hv⟩
+    · have : valuesOf (attrsAll (mk 10 0 [2] [49, 48, 53] [120, 121])) an = [dec 105] := by decide
+      rw [this] at hv; simp at hv; exact ⟨105, by decide, hv⟩
+    · have : valuesOf (attrsAll (mk 10 1 [3] [50] [120])) txHeightKey = [dec 10] := by decide
+      rw [this] at hv; simp at hv; exact ⟨10, by decide, hv⟩
+    · have : valuesOf (attrsAll (mk 10 1 [3] [50] [120])) an = [dec 2] := by decide
+      rw [this] at hv; simp at hv; exact ⟨2, by decide, hv⟩
+  have hrc : rangeConds q = [{ key := an, op := .ge, operand := .int 5 }] := by decide
+  refine ⟨by decide, ?_, ?_, ?_, ?_, ?_⟩
   · intro c hc
-    simp only [List.mem_cons, List.not_mem_nil, or_false] at hc
+    simp only [q, List.mem_cons, List.not_mem_nil, or_false] at hc
     rcases hc with rfl | rfl | rfl | rfl
-    · exact ⟨by decide, by decide, Or.inl ⟨rfl, _, rfl, by decide⟩⟩
-    · exact ⟨by decide, by decide, Or.inr (Or.inl ⟨rfl, rfl, by decide⟩)⟩
-    · exact ⟨by decide, by decide, Or.inr (Or.inr (Or.inl ⟨rfl, _, rfl⟩))⟩
-    · exact ⟨by decide, by decide, Or.inr (Or.inr (Or.inr ⟨rfl, _, rfl, by decide, by decide⟩))⟩
-  · intro c hc n hn r hr kv hkv hk
-    simp only [List.mem_cons, List.not_mem_nil, or_false] at hc hr
-    rcases hc with rfl | rfl | rfl | rfl <;> simp at hn
-    subst hn
-    rcases hr with rfl | rfl
-    · have : kv = ([97, 46, 110], [52, 50]) := by
-        have hkv' : kv ∈ [(([97, 46, 98] : Str), ([120, 121] : Str)), ([97, 46, 110], [52, 50]), (txHeightKey, dec 1)] := hkv
-        simp only [List.mem_cons, List.not_mem_nil, or_false] at hkv'
-        rcases hkv' with rfl | rfl | rfl
-        · exact absurd hk (by decide)
-        · rfl
-        · exact absurd hk (by decide)
-      subst this
-      exact ⟨42, by decide, by decide⟩
-    · have hkv' : kv ∈ [(txHeightKey, dec 1)] := hkv
-      simp only [List.mem_cons, List.not_mem_nil, or_false] at hkv'
-      subst hkv'
-      exact absurd hk (by decide)
+    · exact ⟨by decide, by decide, Or.inr (Or.inl ⟨rfl, 10, rfl, by decide⟩)⟩
+    · exact ⟨by decide, by decide, Or.inr (Or.inr (Or.inr (Or.inr ⟨rfl, 5, rfl, by decide, by intro h; cases h⟩)))⟩
+    · exact ⟨by decide, by decide, Or.inr (Or.inr (Or.inr (Or.inl ⟨rfl, _, rfl⟩)))⟩
+    · exact ⟨by decide, by decide, Or.inr (Or.inr (Or.inl ⟨rfl, rfl, by decide⟩))⟩
+  · intro k; rw [hrc]; simp only [List.filter_cons, List.filter_nil]; split <;> simp
+  · intro k; rw [hrc]; simp [isUpper]
+  · intro c hc r hr n hn v hv
+    simp only [q, List.mem_cons, List.not_mem_nil, or_false] at hc
+    rcases hc with rfl | rfl | rfl | rfl
+    · exact hcanon r hr _ (Or.inl rfl) v hv
+    · exact hcanon r hr _ (Or.inr rfl) v hv
+    · cases hn
+    · cases hn
+  · intro k h2; rw [hrc] at h2
+    simp only [List.filter_cons, List.filter_nil] at h2
+    split at h2 <;> simp at h2
 
 /-- `search_exact` at full strength is false of the code (1): a value containing the separator.
 The tx carries `a.b = "x/1"`; the query `a.b = 'x'` does not match its events, yet `Search`
@@ -489,5 +399,102 @@ theorem block_height_shortcut_fails :
   decide
 
 end index
+
+/-! ## the indexer service: committed blocks arriving through the event bus -/
+section service
+open Tmv.Index Tmv.IndexerService
+variable (H : Bytes → Bytes)
+
+/-- **Every committed tx is indexed once under its height, position and events** — over histories
+of service steps.  For EVERY sequence of committed blocks (0..n txs each, any begin/end events,
+including blocks whose own events the block index rejects) whose tx results form a clean history:
+after the service has processed them, `Get(hash)` returns each committed tx's result, each of its
+secondary rows (indexed attributes and height) is present and points at it, no key of the tx
+index occurs twice, and the tx index is exactly the one `search_exact_clean` speaks about
+(`AddBatch` of all results in commit order) — in particular a rejected block never costs its txs
+their index entries (the behaviour the seeded change C19-3 broke). -/
+theorem service_indexes_every_tx (bs : List Block) (hc : CleanHist H (allResults bs))
+    (b : Block) (hb : b ∈ bs) (r : TxResult) (hr : r ∈ blockResults b) :
+    (run H {} bs).db = addBatch H [] (allResults bs) ∧
+    Index.get (run H {} bs).db (H r.tx) = .found r ∧
+    (∀ kv ∈ attrsAll r, dbGet (run H {} bs).db (keyForEvent kv.1 kv.2 r.height r.index)
+        = some (.hash (H r.tx))) ∧
+    ((run H {} bs).db.map (·.1)).Nodup := by
+  have hdb : (run H {} bs).db = addBatch H [] (allResults bs) := run_db H {} bs
+  have hmem : r ∈ allResults bs := by
+    simp only [allResults, List.mem_flatMap]; exact ⟨b, hb, hr⟩
+  rw [hdb]
+  exact ⟨rfl, indexed_once_partial H (allResults bs) hc r hmem⟩
+
+/-- **Every committed block is indexed once, or explicitly refused.**  For every history
+`pre ++ b :: post` of committed blocks: if the block index accepts `b`'s events when `b` arrives,
+`Has(b.height)` holds at the end of the history (later blocks never remove it); if it refuses
+them (the reserved key `block.height` among the begin/end events), the block index is left
+exactly as it was; and in every case no key of the block index occurs twice. -/
+theorem service_indexes_every_block (pre post : List Block) (b : Block) :
+    (accepted (run H {} pre) b = true →
+        BlockIndex.has (run H {} (pre ++ b :: post)).bdb b.height = true) ∧
+    (accepted (run H {} pre) b = false → (run H {} (pre ++ [b])).bdb = (run H {} pre).bdb) ∧
+    ((run H {} (pre ++ b :: post)).bdb.map (·.1)).Nodup := by
+  have hn0 : ((({} : IndexerService.State).bdb).map (·.1)).Nodup := by simp
+  have hpre := run_bdb H {} pre hn0
+  have hstep := step_bdb H (run H {} pre) b hpre.1
+  have hsplit : run H {} (pre ++ b :: post) = run H (step H (run H {} pre) b) post := by
+    rw [run_append]; rfl
+  have hpost := run_bdb H (step H (run H {} pre) b) post hstep.1
+  refine ⟨?_, ?_, ?_⟩
+  · intro ha
+    rw [hsplit]
+    exact hpost.2 _ (hstep.2.2.1 ha)
+  · intro ha
+    have : run H {} (pre ++ [b]) = step H (run H {} pre) b := by rw [run_append]; rfl
+    rw [this]
+    exact hstep.2.2.2 ha
+  · rw [hsplit]; exact hpost.1
+
+/-- non-vacuity: a three-block history whose middle block is refused by the block index (its
+BeginBlock events use the reserved key `block.height`): the middle block's tx is indexed all the
+same, the block index knows heights 1 and 3 only -/
+example :
+    let ev : Event := { type := [97], attrs := [{ key := [98], value := [120], index := true }] }
+    let bad : Event := { type := [98, 108, 111, 99, 107], attrs := [{ key := [104, 101, 105, 103, 104, 116], value := [49], index := true }] }
+    let b1 : Block := { height := 1, beginEvents := [ev], endEvents := [], txs := [([1], [ev])] }
+    let b2 : Block := { height := 2, beginEvents := [bad], endEvents := [], txs := [([2], [ev])] }
+    let b3 : Block := { height := 3, beginEvents := [], endEvents := [ev], txs := [] }
+    let s := run (fun x => x) {} [b1, b2, b3]
+    CleanHist (fun x => x) (allResults [b1, b2, b3]) ∧
+    accepted (run (fun x => x) {} [b1]) b2 = false ∧
+    Index.get s.db [2] = .found { height := 2, index := 0, tx := [2], events := [ev] } ∧
+    (BlockIndex.has s.bdb 1, BlockIndex.has s.bdb 2, BlockIndex.has s.bdb 3) = (true, false, true) := by
+  refine ⟨by constructor <;> decide, by decide, by decide, by decide⟩
+
+/-- **`Has` is exact** (block index, over the orderedcode tuple model): after any history of
+committed blocks, `Has(x)` holds iff some block of height `x` was accepted by the block index
+when it arrived. -/
+theorem block_has_exact (bs : List Block) (x : Nat) :
+    BlockIndex.has (run H {} bs).bdb x = true ↔
+      ∃ pre b post, bs = pre ++ b :: post ∧ b.height = x ∧ accepted (run H {} pre) b = true := by
+  have := run_has_iff H {} bs (by simp) x
+  rw [this]
+  constructor
+  · rintro (h | h)
+    · simp [BlockIndex.has] at h
+    · exact h
+  · intro h; exact Or.inr h
+
+/-- **`Search` by height is exact** (block index): a query whose first `block.height = n`
+condition has a numeric operand (whatever else it contains — see `block_height_shortcut_fails`)
+and whose numbers fit int64 returns `[n]` iff a block of height `n` was accepted, `[]` otherwise. -/
+theorem block_search_by_height (bs : List Block) (q : Query) (n : Nat)
+    (hok : conditionsOK q = true) (hh : BlockIndex.lookForHeight q = some n) :
+    BlockIndex.search (run H {} bs).bdb q =
+      .heights (if BlockIndex.has (run H {} bs).bdb n then [n] else []) ∧
+    (BlockIndex.has (run H {} bs).bdb n = true ↔
+      ∃ pre b post, bs = pre ++ b :: post ∧ b.height = n ∧ accepted (run H {} pre) b = true) := by
+  refine ⟨?_, block_has_exact H bs n⟩
+  simp only [BlockIndex.search, hok, hh, Bool.not_true, Bool.false_eq_true, if_false]
+  split <;> rfl
+
+end service
 
 end Tmv.Props.C19
